@@ -1,6 +1,7 @@
 package main
 
 import (
+	"math"
 	"bufio"
 	"fmt"
 	"io"
@@ -41,6 +42,15 @@ func genC16(tier string, seed uint64, emit func(string)) {
 			}
 			emit(fmt.Sprintf("snap %s %d %d %d %d", kind, size, 2+r.Intn(2), ms, r.U64()%1000000))
 		}
+	}
+	// large arguments from several clients at once (what a command is given is what its client sent, whatever buffers the
+	// request passed through on the way)
+	for _, size := range []int{5000, 49152, 200000} {
+		rounds := 30
+		if tier == "thorough" {
+			rounds = 300
+		}
+		emit(fmt.Sprintf("bigarg %d %d %d %d", 4+r.Intn(9), rounds, size, r.U64()%1000000))
 	}
 	kindSets := []string{"incr", "incr,decrby,get", "append,get", "setnx,get", "setnx,del", "msetnx,get", "msetnx,del,setnx", "getset,set,get", "set,get,del",
 		"incr,append,set,get", "all", "all"}
@@ -421,9 +431,84 @@ func runSnap(toks []string) Result {
 	return Result{Obs: "linearizable # ", Oracle: "ok", Tags: tags}
 }
 
+// runBigArg: "bigarg <clients> <rounds> <size> <seed>": every client owns one key and keeps writing a value of <size>
+// bytes that names the client and the round - as a non-last argument (SET k v EX n, MSETNX k v k2 v2, RPUSH l v x) and as
+// the last one - and reading it back.  Nobody else writes the key, so every read must return exactly the value the
+// client wrote last: anything else is a value that was never written to that key.  (Oracle only; empty history.)
+func runBigArg(toks []string) Result {
+	clients, _ := strconv.Atoi(toks[1])
+	rounds, _ := strconv.Atoi(toks[2])
+	size, _ := strconv.Atoi(toks[3])
+	tags := []string{"nt", "bigarg", "clients" + toks[1], "size" + bucket(size)}
+	srv := exserver.NewServer()
+	var wg, swg sync.WaitGroup
+	var bad atomic.Value
+	start := make(chan struct{})
+	for c := 0; c < clients; c++ {
+		cl, sv := net.Pipe()
+		swg.Add(1)
+		go func() {
+			defer swg.Done()
+			defer func() { recover() }()
+			srv.VerifServeConn(sv, nil)
+		}()
+		wg.Add(1)
+		go func(c int) {
+			defer wg.Done()
+			defer cl.Close()
+			br := bufio.NewReaderSize(cl, 1<<16)
+			key := fmt.Sprintf("big:%d", c)
+			<-start
+			for i := 0; i < rounds && bad.Load() == nil; i++ {
+				tag := fmt.Sprintf("<client %d round %d>", c, i)
+				val := tag + strings.Repeat(string(rune('a'+c%26)), size-len(tag))
+				var req []byte
+				switch i % 3 {
+				case 0:
+					req = reqS("SET", key, val, "EX", "3600")
+				case 1:
+					req = reqS("SET", key, val)
+				default:
+					req = reqS("SET", key, val, "KEEPTTL")
+				}
+				cl.SetDeadline(time.Now().Add(20 * time.Second))
+				// the request is written from a goroutine of its own: net.Pipe is synchronous, and the server may answer
+				// only after it has read everything
+				werr := make(chan error, 1)
+				go func() { _, err := cl.Write(append(req, reqS("GET", key)...)); werr <- err }()
+				r1, err1 := readAnyReply(br)
+				r2, err2 := readAnyReply(br)
+				if err := <-werr; err != nil || err1 != nil || err2 != nil {
+					bad.CompareAndSwap(nil, fmt.Sprintf("client %d round %d: no reply", c, i))
+					return
+				}
+				want := fmt.Sprintf("$%d\r\n%s\r\n", len(val), val)
+				if string(r1) != "+OK\r\n" || string(r2) != want {
+					got := string(r2)
+					if len(got) > 60 {
+						got = got[:60]
+					}
+					bad.CompareAndSwap(nil, fmt.Sprintf("client %d round %d: GET %s returned a value that was never written to it (%d bytes, starts %q; SET answered %q)", c, i, key, len(r2), got, trunc(string(r1), 20)))
+					return
+				}
+			}
+		}(c)
+	}
+	close(start)
+	wg.Wait()
+	swg.Wait()
+	if b := bad.Load(); b != nil {
+		return Result{Obs: "not-linearizable # ", Oracle: "fail:" + b.(string), Tags: tags}
+	}
+	return Result{Obs: "linearizable # ", Oracle: "ok", Tags: tags}
+}
+
 func runC16(toks []string) Result {
 	if toks[0] == "snap" {
 		return runSnap(toks)
+	}
+	if toks[0] == "bigarg" {
+		return runBigArg(toks)
 	}
 	store := toks[1]
 	clients, _ := strconv.Atoi(toks[2])
@@ -586,6 +671,10 @@ func seqApply(m map[string]string, argv []string) (string, map[string]string) {
 			d, _ = strconv.ParseInt(argv[2], 10, 64)
 		case "DECRBY":
 			x, _ := strconv.ParseInt(argv[2], 10, 64)
+			if x == math.MinInt64 {
+				// Redis: "decrement would overflow" - the negation of the most negative decrement does not exist
+				return "-E\r\n", m
+			}
 			d = -x
 		}
 		cur := int64(0)
